@@ -465,7 +465,7 @@ subcheck("C06", "katz_dense", _dense_strategy, 120, 2500,
 # `np.uint8(256)` raises OverflowError in _build_trie; fixes/C06-unigram-table-wide-vocabulary.diff,
 # replays/C06/unigram-table-over-256-ids.json).  Order-1 tables with a large vocabulary are generated
 # (and judged) only when this switch is on; turn it on once the fix is merged.
-ENABLE_UNIGRAM_WIDE_VOCAB = os.environ.get("VERIF_C06_PENDING", "") == "1"      # default: off
+ENABLE_UNIGRAM_WIDE_VOCAB = True  # repaired in /repo by 9ff89e3
 
 # _build_trie chooses the integer width of the offset buffer from the bound S + T - 1 (S, T = number of
 # nodes of two consecutive levels), but the distance from the first node of a level to its first
@@ -476,7 +476,7 @@ ENABLE_UNIGRAM_WIDE_VOCAB = os.environ.get("VERIF_C06_PENDING", "") == "1"      
 # are rejected / skipped until this switch is on; with it, the directed sizes "e1" (one bigram under
 # 255 - or 32767 - unigram nodes) and "e0" (256 - or 32768 - minus #unigrams bigrams, all ending in
 # the first symbol) are generated as well.
-ENABLE_OFFSET_WIDTH_EDGE = os.environ.get("VERIF_C06_PENDING", "") == "1"       # default: off
+ENABLE_OFFSET_WIDTH_EDGE = True  # repaired in /repo by a1894ea
 
 SIZES = [15, 16, 17, 31, 32, 33, 63, 64, 65, 127, 128, 129, 255, 256, 257, 1023, 1024, 1025, 2049]
 KIND_SIZES = {
